@@ -80,6 +80,17 @@ def threemf_chain(depth, fan):
 def obj_same_names(n):
     return ("".join(f"o part\nv {i} 0 0\nv {i} 1 0\nv {i} 0 1\nf {3*i+1} {3*i+2} {3*i+3}\n" for i in range(n))).encode()
 
+def obj_wide_refs(digits, bad_line, sep):
+    """Face lines whose vertex references have many digits (a model with tens of thousands of vertices, of which only the
+    tail is here), one of them ending in a letter: one corrupted byte at the end of a long line of digits."""
+    base = 10 ** (digits - 1) + 7
+    ref = (lambda k: f"{k}/{k}/{k}") if sep == 2 else ((lambda k: f"{k}//{k}") if sep == 1 else (lambda k: f"{k}"))
+    lines = [f"f {ref(base + 3 * i)} {ref(base + 3 * i + 1)} {ref(base + 3 * i + 2)}" for i in range(6)]
+    lines[bad_line % 6] = lines[bad_line % 6][:-1] + "x"
+    head = "".join(f"v {i} {i % 2} {i % 3}\nvt 0.{i} 0.5\nvn 0 0 1\n" for i in range(4))
+    return (head + "\n".join(lines) + "\n").encode()
+
+
 def stl_same_names(n):
     return ("".join(f"solid part\nfacet normal 0 0 1\nouter loop\nvertex {i} 0 0\nvertex {i} 1 0\nvertex {i} 0 1\nendloop\nendfacet\nendsolid part\n" for i in range(n))).encode()
 
@@ -92,8 +103,8 @@ FAMILIES = {
     "glb": ["gltf_dag", "gltf_cycle_glb", "glb_image_bomb", "gltf_cycle_camera_glb"],
     "gltf": ["gltf_dag", "gltf_cycle", "gltf_cycle_camera"],
     "3mf": ["3mf_chain"],
-    "obj": ["obj_same_names"],
-    "obj_mtl": ["obj_same_names"],
+    "obj": ["obj_same_names", "obj_wide_refs"],
+    "obj_mtl": ["obj_same_names", "obj_wide_refs"],
     "stl_ascii": ["stl_same_names"],
     "stl": ["stl_same_names"],
     "svg": ["svg_nested"],
@@ -130,6 +141,8 @@ def build(sub, a, b, fmt):
         return threemf_chain(17 + a % 8, 3)
     if sub == "obj_same_names":
         return obj_same_names(50 + a % 1500)
+    if sub == "obj_wide_refs":
+        return obj_wide_refs(3 + a % 5, b, (a // 5) % 3)
     if sub == "stl_same_names":
         return stl_same_names(20 + a % 120)
     if sub == "bz2_bomb":
@@ -225,3 +238,80 @@ def bz2_bomb(size):
         out.append(co.flush())
         _BOMB_CACHE[("bz2", size)] = b"".join(out)
     return _BOMB_CACHE[("bz2", size)]
+
+
+# ----------------------------------------------------------------------------- linear families (for the doubling experiment)
+# Documents whose size is proportional to n and whose content is n independent, trivial items: loading them must cost time
+# proportional to n. (file type for the loader, builder)
+def _gltf_many(n, what):
+    d = json.loads(gltf_dag(1, 1, glb=False))
+    if what == "meshes":
+        d["meshes"] = [{"primitives": [{"attributes": {"POSITION": 0}, "indices": 1}]} for _ in range(n)]
+        d["nodes"] = [{"mesh": k} for k in range(n)]
+    elif what == "named_meshes":
+        d["meshes"] = [{"name": "part", "primitives": [{"attributes": {"POSITION": 0}, "indices": 1}]} for _ in range(n)]
+        d["nodes"] = [{"mesh": k, "name": "node"} for k in range(n)]
+    elif what == "nodes":
+        d["nodes"] = [{"mesh": 0, "translation": [float(k), 0.0, 0.0]} for k in range(n)]
+    elif what == "primitives":
+        d["meshes"] = [{"primitives": [{"attributes": {"POSITION": 0}, "indices": 1} for _ in range(n)]}]
+        d["nodes"] = [{"mesh": 0}]
+    d["scenes"] = [{"nodes": list(range(len(d["nodes"])))}]
+    return json.dumps(d).encode()
+
+
+def _ply_ascii(n, what):
+    if what == "faces":
+        head = f"ply\nformat ascii 1.0\nelement vertex {3 * n}\nproperty float x\nproperty float y\nproperty float z\nelement face {n}\nproperty list uchar int vertex_indices\nend_header\n"
+        body = "".join(f"{i} 0 0\n{i} 1 0\n{i} 0 1\n" for i in range(n)) + "".join(f"3 {3 * i} {3 * i + 1} {3 * i + 2}\n" for i in range(n))
+        return (head + body).encode()
+    if what == "properties":
+        # one vertex element with n scalar properties
+        head = "ply\nformat ascii 1.0\nelement vertex 3\nproperty float x\nproperty float y\nproperty float z\n" + "".join(f"property float q{i}\n" for i in range(n)) + "element face 1\nproperty list uchar int vertex_indices\nend_header\n"
+        rows = "".join(f"{k} {k % 2} {k // 2} " + " ".join("0" for _ in range(n)) + "\n" for k in range(3))
+        return (head + rows + "3 0 1 2\n").encode()
+    raise ValueError(what)
+
+
+def _threemf_flat(n):
+    tri = '<mesh><vertices><vertex x="0" y="0" z="0"/><vertex x="1" y="0" z="0"/><vertex x="0" y="1" z="0"/><vertex x="0" y="0" z="1"/></vertices><triangles><triangle v1="0" v2="2" v3="1"/><triangle v1="0" v2="1" v3="3"/><triangle v1="1" v2="2" v3="3"/><triangle v1="0" v2="3" v3="2"/></triangles></mesh>'
+    objs = "".join(f'<object id="{i + 1}" type="model">{tri}</object>' for i in range(n))
+    items = "".join(f'<item objectid="{i + 1}"/>' for i in range(n))
+    model = '<?xml version="1.0" encoding="UTF-8"?><model unit="millimeter" xml:lang="en-US" xmlns="http://schemas.microsoft.com/3dmanufacturing/core/2015/02"><resources>' + objs + "</resources><build>" + items + "</build></model>"
+    buf = io.BytesIO()
+    with zipfile.ZipFile(buf, "w", zipfile.ZIP_DEFLATED) as z:
+        z.writestr(zipfile.ZipInfo("[Content_Types].xml", (2020, 1, 1, 0, 0, 0)), '<?xml version="1.0" encoding="UTF-8"?><Types xmlns="http://schemas.openxmlformats.org/package/2006/content-types"><Default Extension="rels" ContentType="application/vnd.openxmlformats-package.relationships+xml"/><Default Extension="model" ContentType="application/vnd.ms-package.3dmanufacturing-3dmodel+xml"/></Types>')
+        z.writestr(zipfile.ZipInfo("_rels/.rels", (2020, 1, 1, 0, 0, 0)), '<?xml version="1.0" encoding="UTF-8"?><Relationships xmlns="http://schemas.openxmlformats.org/package/2006/relationships"><Relationship Target="/3D/3dmodel.model" Id="rel0" Type="http://schemas.microsoft.com/3dmanufacturing/2013/01/3dmodel"/></Relationships>')
+        z.writestr(zipfile.ZipInfo("3D/3dmodel.model", (2020, 1, 1, 0, 0, 0)), model)
+    return buf.getvalue()
+
+
+def _dxf_lines(n, layers=False):
+    out = ["0", "SECTION", "2", "HEADER", "9", "$INSUNITS", "70", "1", "0", "ENDSEC", "0", "SECTION", "2", "ENTITIES"]
+    for j in range(n):
+        out += ["0", "LINE", "8", (f"L{j}" if layers else "0"), "10", str(float(3 * j)), "20", "0.0", "11", str(float(3 * j) + 1.0), "21", "0.5"]
+    out += ["0", "ENDSEC", "0", "EOF"]
+    return ("\n".join(out) + "\n").encode()
+
+
+LINEAR = {
+    "obj_same_names": ("obj", obj_same_names),
+    "obj_distinct_names": ("obj", lambda n: ("".join(f"o part{i}\nv {i} 0 0\nv {i} 1 0\nv {i} 0 1\nf {3*i+1} {3*i+2} {3*i+3}\n" for i in range(n))).encode()),
+    "obj_material_groups": ("obj", lambda n: ("o part\n" + "".join(f"usemtl m{i}\nv {i} 0 0\nv {i} 1 0\nv {i} 0 1\nf {3*i+1} {3*i+2} {3*i+3}\n" for i in range(n))).encode()),
+    "obj_one_material_many_groups": ("obj", lambda n: ("".join(f"g grp\nusemtl m\nv {i} 0 0\nv {i} 1 0\nv {i} 0 1\nf {3*i+1} {3*i+2} {3*i+3}\n" for i in range(n))).encode()),
+    "stl_same_names": ("stl", stl_same_names),
+    "stl_distinct_names": ("stl", lambda n: ("".join(f"solid part{i}\nfacet normal 0 0 1\nouter loop\nvertex {i} 0 0\nvertex {i} 1 0\nvertex {i} 0 1\nendloop\nendfacet\nendsolid part{i}\n" for i in range(n))).encode()),
+    "gltf_unnamed_meshes": ("gltf", lambda n: _gltf_many(n, "meshes")),
+    "gltf_named_meshes": ("gltf", lambda n: _gltf_many(n, "named_meshes")),
+    "gltf_nodes": ("gltf", lambda n: _gltf_many(n, "nodes")),
+    "gltf_primitives": ("gltf", lambda n: _gltf_many(n, "primitives")),
+    "ply_faces": ("ply", lambda n: _ply_ascii(n, "faces")),
+    "ply_properties": ("ply", lambda n: _ply_ascii(n, "properties")),
+    "3mf_objects": ("3mf", _threemf_flat),
+    "dxf_lines": ("dxf", _dxf_lines),
+    "dxf_lines_layers": ("dxf", lambda n: _dxf_lines(n, layers=True)),
+    "svg_paths": ("svg", lambda n: (b"<svg xmlns='http://www.w3.org/2000/svg'>" + b"".join(f"<path d='M {3 * i} 0 L {3 * i + 1} 0 L {3 * i + 1} 1 Z'/>".encode() for i in range(n)) + b"</svg>")),
+    "svg_nested": ("svg", svg_nested),
+    "off_faces": ("off", lambda n: (f"OFF\n{3 * n} {n} 0\n" + "".join(f"{i} 0 0\n{i} 1 0\n{i} 0 1\n" for i in range(n)) + "".join(f"3 {3 * i} {3 * i + 1} {3 * i + 2}\n" for i in range(n))).encode()),
+    "xyz_points": ("xyz", lambda n: ("".join(f"{i} {i % 7} {i % 3}\n" for i in range(n))).encode()),
+}
